@@ -38,6 +38,18 @@ func genC18(t *rapid.T) c18Case {
 		return c18Case{Kind: "c12", C12: &c}
 	default:
 		c := genC13(t)
+		if rapid.IntRange(0, 2).Draw(t, "dup_key_held") == 0 {
+			// a duplicate-key join that is held in the read callback while commands are dispatched to the key's owner:
+			// the registry, the owner's writer and the newcomer's reader all touch the owner's session at once
+			c.Fault, c.ReadHold, c.WriteHold = "duplicate_key", 20000, 0
+			c.Q = 6
+			c.TimeoutMs, c.Stagger = nil, nil
+			for i := 0; i < c.Q; i++ {
+				// spread the commands over both refusals (each is held ~20 ms in the read callback)
+				c.TimeoutMs = append(c.TimeoutMs, 400)
+				c.Stagger = append(c.Stagger, rapid.SampledFrom([]int{500, 3000, 8000, 12000}).Draw(t, "stagger2"))
+			}
+		}
 		return c18Case{Kind: "c13", C13: &c}
 	}
 }
@@ -76,6 +88,9 @@ func checkC18(c c18Case, _ *kit.Collector) kit.Result {
 		res.NT = c.C13.Q >= 1
 		res.Labels = append(res.Labels, "fault_"+c.C13.Fault)
 	}
+	// the harness's recorder (one mutex, one atomic counter) would order the library's goroutines through the
+	// callbacks and hide races from the detector: under C18 the callbacks only sleep, they record nothing
+	sc.Silent = true
 	h := runScenario(sc)
 	if h.Exit == "infra" || h.Exit == "timeout" {
 		res.Excluded = "infrastructure"
